@@ -149,6 +149,10 @@ func compChoices(r *Rng, s *Sess) [][]int {
 
 // C12: subscriptions and Dispatch.
 func caseC12(c *Ctx) {
+	if c.Mode == "nested" {
+		caseNested(c, true)
+		return
+	}
 	cfg := GenCfg(c.R, 40)
 	if c.Case%3 == 1 {
 		// component IDs in every word of the masks (restrictions are masks, and a Dispatch merges them)
